@@ -18,6 +18,8 @@
 //! expression (`TyDiagnostic.expr = Some`), tynx = type errors without an expression.
 //! A Cranelift verifier error makes codegen call process::exit(1): the marker line
 //! `@@C07-CODEGEN-START` without a following `@@C07` line tells the orchestrator.
+mod hirdump;
+
 use std::path::{Path, PathBuf};
 
 use ast::AstNode;
@@ -80,6 +82,8 @@ fn main() {
     // C21 (library-level file order): "fwd" / "rev" = load the imports of every file in ascending /
     // descending path order instead of the hash-set order main.rs uses
     let order = args.get(4).cloned().unwrap_or_default();
+    // C07 traversal correspondence: "dump" as 5th or 6th argument prints the abstract HIR world
+    let dump = args.iter().skip(4).any(|a| a == "dump");
 
     let mut interner = Interner::default();
     let mut world_index = hir::WorldIndex::default();
@@ -225,8 +229,17 @@ fn main() {
         }
     }
 
+    let mut err_set: rustc_hash::FxHashSet<(FileName, la_arena::Idx<hir::Expr>)> = Default::default();
+    let unsafe_log = hir_ty::verif_take_unsafe_log();
     let (tys, any_unsafe, tyx, tynx, infer_s) = match inferred {
         Ok(r) => {
+            for d in &r.diagnostics {
+                if d.is_error() {
+                    if let Some(e) = d.expr {
+                        err_set.insert((d.file, e));
+                    }
+                }
+            }
             let mut tyx = 0usize;
             let mut tynx = 0usize;
             for d in &r.diagnostics {
@@ -314,6 +327,15 @@ fn main() {
         }
     }
     let _ = Path::new("");
+    if dump {
+        if let Some(tys) = &tys {
+            let r = guarded(|| hirdump::dump_world(&world_index, &world_bodies, tys, &err_set, &unsafe_log));
+            match r {
+                Ok(line) => println!("@@C07-HIR {}", line),
+                Err(p) => println!("@@C07-HIR FAILED {}", p),
+            }
+        }
+    }
     kinds.sort();
     kinds.dedup();
     println!(
